@@ -140,18 +140,36 @@ func VerifC02Replication() {
 			c.caughtUp[fi] = req >= L.log.NewestOffset()
 			c.lastReq[fi] = req
 			if req < L.log.NewestOffset() {
+				// one replication response = one message set: either a single
+				// message or everything the follower lacks (replicator.replicate
+				// batches up to ReplicationMaxBytes), appended by one
+				// AppendMessageSet call as handleReplicationResponse does.
+				n := int64(1)
+				if L.log.NewestOffset()-req > 1 {
+					if vChoose(2) == 1 {
+						n = L.log.NewestOffset() - req
+						vCover("fetch-batch")
+					}
+				}
 				r, err := L.log.NewReader(req+1, true)
 				vAssert(err == nil, "replication reader opens")
 				if err != nil {
 					return
 				}
-				m, off, _, _, err := r.ReadMessage(vCtx(), c.buf)
-				vAssert(err == nil, "replication read succeeds")
-				if err != nil {
-					return
+				var data []byte
+				first := int64(-1)
+				for i := int64(0); i < n; i++ {
+					m, off, _, _, err := r.ReadMessage(vCtx(), c.buf)
+					vAssert(err == nil, "replication read succeeds")
+					if err != nil {
+						return
+					}
+					if first < 0 {
+						first = off
+					}
+					data = append(append(data, c.buf...), m...)
 				}
-				data := append(append([]byte{}, c.buf...), m...)
-				if !(off < F.log.NewestOffset()+1) { // handleReplicationResponse's guard
+				if !(first < F.log.NewestOffset()+1) { // handleReplicationResponse's guard
 					_, err := F.log.AppendMessageSet(data)
 					vAssert(err == nil, "follower append succeeds")
 				}
